@@ -1,7 +1,8 @@
 """C16 - Krylov solvers return Ritz data of the operator they are given.
 
 proof gate (coq/Props/C16.v)  +  correspondence: instrumented LanczosGroundState / LanczosEvolution runs
-(which Krylov vector is cached / combined with which coefficient) and tools.misc.argsort  <->  Model/Krylov.v
+(which Krylov vector is cached / combined with which coefficient), tools.misc.argsort and GMRES runs with restarts observed from
+outside (matvec / reset / x-update events, start state after every restart)  <->  Model/Krylov.v, Model/KrylovGmres.v
 (vm_compute)  +  oracle: dense eigh / eig / scipy expm of the same operators (written from the documentation).
 """
 import numpy as np
@@ -107,6 +108,31 @@ def gen_gmres(rng, seed):
             else rng.choice([8.5, -9.5]), 'x0_scale': rng.choice([0.0, 1.0]),
             'opts': {'N_min': rng.choice([None, 1, 2]), 'N_max': rng.choice([None, 3, 5, m, m + 1, 30]),
                      'restart': rng.choice([None, 1, 3]), 'res': rng.choice([None, 1e-6, 1e-12])}}
+
+
+def gen_gmres_restart(rng, seed):
+    """GMRES(N_max) with restarts: small N_max against the dimension of the charge sector, right-hand sides and start
+    vectors of norm far from 1, real / complex dtype, real / complex diagonal shift, tight and loose tolerances."""
+    for _ in range(8):
+        spec = gen_spec(rng, seed, herm=rng.random() < 0.3, nmax=30)
+        if sector_dim(spec) >= 4 or rng.random() < 0.1:
+            break
+    spec['start'] = rng.choice(['random', 'random', 'random', 'basis'])
+    spec['scale'] = 1.0
+    m = sector_dim(spec)
+    integer = spec['spectrum'] in ('integer', 'degenerate')
+    shift = [rng.choice([8.5, -9.5, 5.5]), 0.0] if integer else [rng.choice([3.0, 8.0, -9.0, 4.0, -2.5]), 0.0]
+    if spec['cplx'] and rng.random() < 0.4:
+        shift[1] = rng.choice([2.0, -3.0, 0.5])
+    N_max = rng.choice([1, 2, 2, 3, 3, 4, 5, 6, max(1, m - 1), m, m + 1])
+    N_min = rng.choice([0, 0, 1, 1, 2, 3, None])
+    if rng.random() < 0.9:
+        N_min = min(N_min if N_min is not None else 5, N_max - 1)     # otherwise the convergence test is never reached
+    return {'kind': 'gmresr', 'spec': spec, 'diag_shift': shift,
+            'b_scale': rng.choice([1e-3, 1e-2, 0.1, 0.37, 1.0, 2.0, 7.3, 100.0, 1e3]),
+            'x0_scale': rng.choice([0.0, 0.0, 1.0, 1e-2, 50.0]), 'real_dtype': rng.random() < 0.5,
+            'opts': {'N_min': N_min, 'N_max': N_max, 'restart': rng.choice([1, 2, 3, 4, 6, 8, None]),
+                     'res': rng.choice([None, 1e-3, 1e-6, 1e-10, 1e-12])}}
 
 
 def gen_gs(rng, seed):
@@ -379,6 +405,13 @@ def oracle_gmres(ctx, case, r):
     x = G.dec(r['x'])
     true = np.linalg.norm(A @ x - b) / np.linalg.norm(b)
     probs, known = [], []
+    flat = [e for t in r['total_error'] for e in t]
+    if not (np.all(np.isfinite(x)) and np.isfinite(r['res']) and np.all(np.isfinite(flat))):
+        bad = [i for i, e in enumerate(flat) if not np.isfinite(e)]
+        msg = 'GMRES returns non-finite numbers: residual %s, error history %s...' % (r['res'], flat[:6])
+        if bad and bad[0] > 0 and flat[bad[0] - 1] <= 1e-14 * max(1.0, flat[0]):
+            return [], ['NAN ' + msg], {'true': true}        # see oracle_gmres_restart
+        return [msg], [], {'true': true}
     if abs(true - r['res']) > 1e-10 * max(1.0, true):
         probs.append('reported residual %.6e, actual |Ax-b|/|b| = %.6e' % (r['res'], true))
     I = G.sector_indices(spec['leg'], spec['sector'])
@@ -397,6 +430,197 @@ def oracle_gmres(ctx, case, r):
             else:
                 probs.append(msg)
     return probs, known, {'true': true}
+
+
+def dense_krylov_basis(As, r0, kmax):
+    """orthonormal basis of span{r0, As r0, ...} (dense Arnoldi, orthogonalised twice); returns (V [m x d], d, ratios)
+    with d <= kmax the exact Krylov dimension (relative breakdown threshold 1e-9)."""
+    m = As.shape[0]
+    nr = np.linalg.norm(r0)
+    if m == 0 or nr == 0:
+        return np.zeros((m, 0), dtype=complex), 0, []
+    scale = max(1e-300, np.linalg.norm(As, 2))
+    V = [r0 / nr]
+    ratios = []
+    while len(V) < min(m, kmax):
+        w = As @ V[-1]
+        for _ in range(2):
+            for v in V:
+                w = w - np.vdot(v, w) * v
+        nw = np.linalg.norm(w)
+        if nw < 1e-9 * scale:
+            break
+        ratios.append(nw / scale)
+        V.append(w / nw)
+    return np.array(V).T, len(V), ratios
+
+
+def oracle_gmres_restart(ctx, case, r):
+    """restarted GMRES, written from the definition: cycle c starts from x_c with r_c = b - A x_c and returns
+    x_{c+1} = argmin ||b - A x|| over x_c + K_k(A, r_c); the j-th entry of the error history of the cycle is
+    min over x_c + K_j of ||b - A x|| / ||b||; every (re)start builds q_0 = r_c/||r_c||, e1 = ||r_c|| * (1,0,..)."""
+    spec, opts = case['spec'], case['opts']
+    probs = []
+    M = G.dense_operator(spec)
+    n = M.shape[0]
+    A = M + complex(*case['diag_shift']) * np.eye(n)
+    b = G.start_vector(spec, A) * case['b_scale']
+    x0 = G.extra_vectors(spec, M, 1, tag=3)[0] * case['x0_scale']
+    I = G.sector_indices(spec['leg'], spec['sector'])
+    As = A[np.ix_(I, I)]
+    nb = np.linalg.norm(b)
+    nA = np.linalg.norm(As, 2)
+    N_min = opts['N_min'] if opts['N_min'] is not None else 5
+    N_max = opts['N_max'] if opts['N_max'] is not None else 20
+    restart = opts['restart'] if opts['restart'] is not None else 10
+    res = opts['res'] if opts['res'] is not None else 1e-8
+    pl, tr = r['plain'], r['traced']
+    info = {'cycles': len(pl['iters']), 'checked_cycles': 0, 'm': len(I), 'nb': nb, 'margin': 0.0, 'beyond': 0}
+    for key in ('x', 'res', 'iters', 'total_error'):
+        if repr(pl[key]) != repr(tr[key]):          # (repr: NaN entries compare equal)
+            return ['correspondence'], [], info
+    x = G.dec(pl['x'])
+    te, iters = pl['total_error'], pl['iters']
+    flat = [e for t in te for e in t]
+    if np.all(np.isfinite(flat)) and len(te) >= len(iters) and all(len(t) >= k + 1 for t, k in zip(te, iters)):
+        # input of Model/KrylovGmres.v: which estimates were below the tolerance; the model predicts events and total_iters
+        info['coq'] = (Nat(N_min), Nat(N_max), Nat(restart), bool(te[0][0] < res),
+                       [[bool(te[c][j + 1] < res) for j in range(k)] for c, k in enumerate(iters)],
+                       [tuple(Nat(v) for v in e) for e in tr['events']], [Nat(k) for k in iters])
+    if not (np.all(np.isfinite(flat)) and np.all(np.isfinite(x)) and np.isfinite(pl['res'])):
+        bad = [i for i, e in enumerate(flat) if not np.isfinite(e)]
+        msg = 'GMRES returns non-finite numbers: x = %s..., residual %s, error history %s...' % (list(x[I][:2]), pl['res'], flat[:6])
+        if bad and bad[0] > 0 and flat[bad[0] - 1] <= 1e-14 * max(1.0, flat[0]):
+            # the residual became exactly 0 / rounding noise (Krylov space exhausted) while N_min (or N_max without the
+            # convergence flag) forces another iteration: 0/0 in the Givens rotation / in the normalisation of the restart vector
+            return [], [msg], info
+        return [msg], [], info
+    if np.linalg.norm(np.delete(x, I)) > 0 or not pl['qtotal_ok']:
+        probs.append('solution leaves the charge sector of b')
+    if not (pl['b_untouched'] and pl['x0_untouched']):
+        probs.append('GMRES modified the arrays b / x0 it was given')
+    xs = [x0] + [G.dec(c['x']) for c in tr['cycles']]
+    if len(xs) != len(iters) + 1:
+        return ['%d cycles recorded, total_iters has %d entries' % (len(xs) - 1, len(iters))], [], info
+    if np.linalg.norm(xs[-1] - x) > 0:
+        probs.append('returned x is not the x after the last cycle')
+
+    def relres(y):
+        return np.linalg.norm(b - A @ y) / nb
+    xmax = max(np.linalg.norm(y) for y in xs)
+    floor = 1e-12 * (nA * xmax + nb) / nb          # resolution of a residual computed in double precision
+    true = relres(x)
+
+    def differs(a, ref, rel=1e-6):
+        d = abs(a - ref)
+        info['margin'] = max(info['margin'], d / (rel * abs(ref) + 100 * floor)) if np.isfinite(d) else np.inf
+        return not d <= rel * abs(ref) + 100 * floor
+    # ---- the returned residual, and the shape of the histories
+    if differs(pl['res'], true, 1e-9):
+        probs.append('returned residual %.6e, actual |Ax-b|/|b| = %.6e' % (pl['res'], true))
+    if differs(te[0][0], relres(x0), 1e-9):
+        probs.append('total_error[0][0] = %.6e, residual of the initial guess %.6e' % (te[0][0], relres(x0)))
+    if te[0][0] < res:
+        if iters or len(te) != 1 or len(te[0]) != 1 or np.linalg.norm(x - x0) > 0:
+            probs.append('initial guess below tolerance but GMRES iterated')
+        return probs, [], info
+    if not 1 <= len(iters) <= restart:
+        probs.append('%d cycles with restart=%d' % (len(iters), restart))
+    converged = len(te) == len(iters)
+    if len(te) not in (len(iters), len(iters) + 1) or any(len(t) != k + 1 for t, k in zip(te, iters)) or \
+            (not converged and len(te[-1]) != 1):
+        probs.append('shape of total_error %s does not fit total_iters %s' % ([len(t) for t in te], iters))
+        return probs, [], info
+    for c, k in enumerate(iters):
+        hit = [j for j in range(1, k + 1) if te[c][j] < res and j - 1 >= N_min]
+        last = c == len(iters) - 1
+        if not 1 <= k <= N_max:
+            probs.append('cycle %d: %d iterations with N_max=%d' % (c, k, N_max))
+        elif hit and (hit[0] != k or not last or not converged):
+            probs.append('cycle %d: estimate %.3e < res at iteration %d >= N_min+1 but GMRES went on' % (c, te[c][hit[0]], hit[0]))
+        elif not hit and (k != N_max or (last and converged)):
+            probs.append('cycle %d stopped after %d < N_max iterations without an estimate below res=%g' % (c, k, res))
+    if not converged and len(iters) != restart:
+        probs.append('not converged after %d cycles but restart=%d' % (len(iters), restart))
+    ev = ['mv']
+    for c, k in enumerate(iters):
+        ev += ['mv'] * k + ([] if (converged and c == len(iters) - 1) else ['reset', 'mv'])
+    ev += ['mv']
+    seen = [{11: 'mv', 14: 'mv', 15: 'mv', 13: 'reset'}.get(e[0], '?') for e in tr['events'] if e[0] not in (10, 12)]
+    if seen != ev:
+        probs.append('sequence of matvec / reset calls %s differs from the one of restarted GMRES with total_iters %s' % (seen, iters))
+    upd = [[e[2] for e in tr['events'] if e[0] == 12 and e[1] == c] for c in range(len(iters))]
+    if upd != [list(range(k)) for k in iters]:
+        probs.append('x is updated with the Krylov vectors %s, expected q_0..q_(k-1) of each cycle once (total_iters %s)' % (upd, iters))
+    if probs:
+        return probs, [], info
+    # ---- every cycle against the dense minimal-residual problem
+    starts = tr['starts']
+    rho = [relres(y) for y in xs]
+    for c, k in enumerate(iters):
+        rc = b - A @ xs[c]
+        nrc = np.linalg.norm(rc)
+        st = starts[c]
+        tag = 'cycle %d (%s)' % (c, 'initial' if c == 0 else 'after restart %d' % c)
+        checkable = rho[c] > 1e6 * floor        # a residual well above the rounding level of b - A x
+        if not checkable:
+            info['beyond'] += 1
+            continue
+        # state after the (re)start
+        q0 = G.dec(st['q0'])
+        e1 = G.dec(st['e1'])
+        if st['n_qs'] != 1:
+            probs.append(tag + ': %d Krylov vectors at the start' % st['n_qs'])
+        if abs(np.linalg.norm(q0) - 1) > 1e-12:
+            probs.append(tag + ': first Krylov vector has norm %.15g' % np.linalg.norm(q0))
+        elif np.linalg.norm(q0 * nrc - rc) > 1e-9 * nrc + 100 * floor * nb:
+            probs.append(tag + ': first Krylov vector is not r/|r| of r = b - A x')
+        if st['r_norm_imag'] != 0 or abs(st['r_norm'] - nrc) > 1e-9 * nrc + 100 * floor * nb:
+            probs.append(tag + ': r_norm = %.12g, norm of the residual b - A x is %.12g' % (st['r_norm'], nrc))
+        if len(e1) < 1 or abs(e1[0] - nrc) > 1e-9 * nrc + 100 * floor * nb or np.any(e1[1:] != 0):
+            probs.append(tag + ': right-hand side of the least-squares problem is not |r| * e_1 (first entry %s, |r| = %.12g)'
+                         % (e1[0] if len(e1) else None, nrc))
+        # (that H / sine / cosine are re-allocated as zeros and the lists rs / total_error grow by one entry is an implementation
+        #  detail: compared with Model/KrylovGmres.v through the start-state code of the trace, not judged here)
+        if differs(te[c][0], rho[c], 1e-9):
+            probs.append(tag + ': total_error[%d][0] = %.6e, actual residual %.6e' % (c, te[c][0], rho[c]))
+        if c and rho[c] > rho[c - 1] * (1 + 1e-9) + 100 * floor:
+            probs.append(tag + ': residual increased from %.6e to %.6e over a restart cycle' % (rho[c - 1], rho[c]))
+        V, d, ratios = dense_krylov_basis(As, rc[I], k + 1)
+        if k > d or (ratios and min(ratios) < 1e-6):
+            info['beyond'] += 1     # iterations beyond the exhausted Krylov space (N_min forces them): only noise is added
+            continue
+        info['checked_cycles'] += 1
+        gram = tr['cycles'][c]['gram']
+        if tr['cycles'][c]['n_qs'] != k + 1:
+            probs.append(tag + ': %d Krylov vectors after %d iterations' % (tr['cycles'][c]['n_qs'], k))
+        AV = A[:, I] @ V
+        optj = [rho[c]]
+        for j in range(1, k + 1):
+            y, *_ = np.linalg.lstsq(AV[:, :j], rc, rcond=None)
+            optj.append(np.linalg.norm(rc - AV[:, :j] @ y) / nb)
+        opt = optj[k]
+        # modified Gram-Schmidt inside GMRES loses orthogonality only as the residual converges:
+        # |Q^dagger Q - 1| * (residual reduction of the cycle) = O(eps * cond(A))   (measured on the unchanged code: <= 5e-15)
+        gtol = 1e-12 * max(10.0, np.linalg.cond(As))
+        for l in range(0, k + 1 if k < d else k):
+            if l < len(gram) and gram[l] * min(1.0, optj[l] / rho[c]) > gtol:
+                probs.append(tag + ': Krylov basis q_0..q_%d not orthonormal, max |<q_i|q_j> - delta_ij| = %.3e' % (l, gram[l]))
+                break
+        for j in range(1, k + 1):
+            if differs(te[c][j], optj[j]):
+                probs.append(tag + ': total_error[%d][%d] = %.6e, minimal residual over the %d-dimensional Krylov space %.6e'
+                             % (c, j, te[c][j], j, optj[j]))
+                break
+        if differs(rho[c + 1], opt):
+            probs.append(tag + ': x after the cycle has residual %.6e, the minimum over x + K_%d is %.6e' % (rho[c + 1], k, opt))
+        if differs(te[c][k], rho[c + 1]):
+            probs.append(tag + ': last estimate of the cycle %.6e, actual residual of the updated x %.6e' % (te[c][k], rho[c + 1]))
+        if converged and c == len(iters) - 1 and not true <= res * (1 + 1e-6) + 100 * floor:
+            probs.append('GMRES reports convergence to res=%g, actual residual %.6e' % (res, true))
+    if not converged and differs(te[-1][0], true, 1e-9) and true > 1e6 * floor:
+        probs.append('total_error[-1][0] = %.6e after the last restart, actual residual %.6e' % (te[-1][0], true))
+    return probs, [], info
 
 
 def oracle_gs(ctx, case, r):
@@ -540,6 +764,8 @@ def main(ctx):
     cases += [gen_gs(rng, base + 500000 + i) for i in range(ctx.pick(80, 800) * mult)]
     cases += [gen_flat(rng, base + 600000 + i) for i in range(ctx.pick(100, 1000) * mult)]
     cases += [gen_argsort(rng) for i in range(ctx.pick(300, 3000) * mult)]
+    # (appended last: the random stream of the generators above is unchanged)
+    cases += [gen_gmres_restart(rng, base + 700000 + i) for i in range(ctx.pick(160, 1600) * mult)]
     for c in common.corpus_cases('C16'):
         cases.append(c['case'])
     for c in cases:
@@ -549,6 +775,7 @@ def main(ctx):
     results = run_chunks(ctx, cases)
     coq_l, coq_l_idx, coq_a, coq_a_idx = [], [], [], []
     coq_h, coq_h_idx = [], []
+    coq_g, coq_g_idx = [], []
     hist = {'rebuild_path': 0, 'early_exit': 0, 'full_dim': 0, 'N1': 0, 'reortho': 0, 'E_shift': 0, 'ortho': 0, 'beyond_dim': 0, 'h_reads_converged': 0}
     for idx, (case, r) in enumerate(zip(cases, results)):
         kind = case['kind']
@@ -614,9 +841,37 @@ def main(ctx):
             ctx.count(stream, [case['spec']['seed'], case['opts']], nontrivial=True, sample={'opts': case['opts'], 'res': r['res']})
             if probs:
                 ctx.fail('oracle', 'GMRES: ' + '; '.join(probs[:4]), {'stream': stream, 'case': case}, match_key='C16:gmres')
-            if known:
+            if known and known[0].startswith('NAN '):
+                ctx.fail('oracle', known[0][4:], {'stream': stream, 'case': case},
+                         match_key='C16:GMRES:residual-exactly-zero-before-N_min:NaN')
+            elif known:
                 ctx.fail('oracle', 'GMRES (complex operator): ' + known[0], {'stream': stream, 'case': case},
                          match_key='C16:GMRES:complex-operator:residual-estimate')
+        elif kind == 'gmresr':
+            probs, known, info = oracle_gmres_restart(ctx, case, r)
+            hist['gmres_restarts'] = hist.get('gmres_restarts', 0) + max(0, info['cycles'] - 1)
+            hist['gmres_cycles_checked'] = hist.get('gmres_cycles_checked', 0) + info['checked_cycles']
+            hist['gmres_cycles_beyond_krylov_dim'] = hist.get('gmres_cycles_beyond_krylov_dim', 0) + info['beyond']
+            hist['gmres_restarted_runs_b_norm_not_1'] = hist.get('gmres_restarted_runs_b_norm_not_1', 0) + \
+                (info['cycles'] > 1 and abs(info['nb'] - 1) > 0.01)
+            hist['gmres_max_margin'] = max(hist.get('gmres_max_margin', 0.0), info['margin'])
+            if 'coq' in info:
+                coq_g.append(coq_lit(info['coq']))
+                coq_g_idx.append(idx)
+            ctx.count(stream, [case['spec']['seed'], case['opts'], case['b_scale'], case['x0_scale'], case['diag_shift']],
+                      nontrivial=info['cycles'] > 1,
+                      sample={'opts': case['opts'], 'b_norm': info['nb'], 'dim_sector': info['m'], 'iters': r['plain']['iters'],
+                              'res': r['plain']['res']})
+            if probs == ['correspondence']:
+                ctx.fail('correspondence', 'GMRES observed from outside (wrapped reset, counting operator) differs from the plain run',
+                         {'stream': stream, 'case': case})
+            elif probs:
+                ctx.fail('oracle', 'GMRES: ' + '; '.join(probs[:4]), {'stream': stream, 'case': case,
+                                                                      'impl': {'iters': r['plain']['iters'], 'res': r['plain']['res']}},
+                         match_key='C16:gmres-restart')
+            for kn in known:
+                ctx.fail('oracle', kn, {'stream': stream, 'case': case},
+                         match_key='C16:GMRES:residual-exactly-zero-before-N_min:NaN')
         elif kind == 'gs':
             probs, info = oracle_gs(ctx, case, r)
             ctx.count(stream, [case['spec']['seed'], case['count'], case['dependent']], nontrivial=info['k'] > 1,
@@ -663,16 +918,30 @@ def main(ctx):
         ctx.fail('correspondence', 'Model/Krylov2.v and the instrumented Lanczos run disagree (program order of the accesses to _h_krylov)',
                  {'stream': 'lanczos-h-trace', 'case': case, 'N': results[coq_h_idx[b]]['traced']['N'],
                   'cv': results[coq_h_idx[b]]['traced']['cv']})
+    badg, err = common.coq_failing_indices('cases_c16_g', ['Base.Prelude', 'Model.Krylov', 'Model.KrylovGmres'], 'check_gmres', coq_g)
+    if err:
+        ctx.fail('correspondence', 'model evaluation failed: ' + err[-600:], None)
+    for b in badg[:5]:
+        case = cases[coq_g_idx[b]]
+        rr = results[coq_g_idx[b]]['traced']
+        fresh = [e for e in rr['events'] if e[0] == 10 and e[2] != 0]
+        ctx.fail('correspondence', 'Model/KrylovGmres.v and the observed GMRES run disagree (cycles / matvec / reset events / start state after a '
+                 'restart%s)' % ('; start states violating the restart invariants [10, cycle, bit mask 1:one vector 2:r_norm=|r| 4:e1 8:q0=r/|r| '
+                                 '16:H,rotations zero 32:histories]: %s' % fresh[:3] if fresh else ''),
+                 {'stream': 'gmresr-trace', 'case': case, 'iters': rr['iters'], 'events': rr['events'][:60]})
     bad2, err = common.coq_failing_indices('cases_c16_a', ['Base.Prelude', 'Model.Krylov'], 'check_argsort', coq_a)
     if err:
         ctx.fail('correspondence', 'model evaluation failed: ' + err[-600:], None)
     for b in bad2[:5]:
         ctx.fail('correspondence', 'Model/Krylov.v argsort_model and tools.misc.argsort disagree', {'stream': 'argsort', 'case': cases[coq_a_idx[b]]})
-    ctx.cov['traces_validated_against_impl'] = len(coq_l) + len(coq_h) + len(coq_a)
+    ctx.cov['traces_validated_against_impl'] = len(coq_l) + len(coq_h) + len(coq_a) + len(coq_g)
     ctx.cov['input_distribution'] = hist
     ctx.assumptions += [
         'C16 model: Krylov vectors are abstract indices; the float kernel (inner products, norms, eig of the projected matrix, exit '
         'conditions) is not modelled: the number of iterations N is taken from the run; spectral clauses are oracle-only',
+        'C16 GMRES (stream gmresr): cycles that start from a residual at the rounding level of b - A x, or run beyond the exact Krylov '
+        'dimension of (A, r_c) (N_min forces that), are only checked for the discrete bookkeeping; tolerance 1e-6 relative on residuals '
+        '(observed deviations < 1e-10)',
         'C16 oracle tolerances: 1e-8*|H| for Rayleigh quotient / lower bound, 1e-7 for expm; results with N > dim(sector) '
         '(option N_min forces iterations beyond the exhausted Krylov space) are only checked for the bookkeeping',
     ]
@@ -683,5 +952,7 @@ def main(ctx):
 RULE = ('block-sparse operators of dimension 1-60 (no charge, U(1), Z2, Z3, U(1)xZ2; sorted/unsorted/duplicate-charge legs), Hermitian '
         '(random, degenerate extremal eigenvalues, low rank, integer, clustered spectra) and general; start vectors random / in an '
         'invariant subspace / unit vectors / rescaled; options N_min, N_max, N_cache (2..>N_max), reortho, E_shift, cutoff, P_tol, E_tol; '
-        'wrappers Shift/Sum/Orthogonal; exponents real/imaginary/complex.  A Lanczos case is non-trivial when N > 1; distinct = '
+        'wrappers Shift/Sum/Orthogonal; exponents real/imaginary/complex; GMRES also with N_max far below the dimension (1..10 restarts), '
+        'right-hand sides of norm 1e-3..1e3, zero / small / large initial guess, real and complex dtype (a gmresr case is non-trivial when it '
+        'restarted).  A Lanczos case is non-trivial when N > 1; distinct = '
         'distinct (operator seed, options, wrapper).')
